@@ -46,6 +46,7 @@ func (c *Combo) ValidateWithContext(ctx context.Context) error {
 		r = RegimeDefFor(c.Country.Code())
 	}
 	return ValidateStructWithContext(ctx, c,
+		validation.Field(&c.Country),
 		validation.Field(&c.Category,
 			validation.Required,
 			r.InCategories(),
